@@ -28,7 +28,7 @@ TIERS = {
     "thorough": dict(runs=25000, timeout=600, max_exchanges=30, shrink_seconds=400, shrink_steps=800),
 }
 
-MODES = ["server", "diffweb", "difftool", "mergeweb", "mergeweb_out", "mergetool"]
+MODES = ["server", "diffweb", "difftool", "mergeweb", "mergeweb_out", "mergetool", "diffweb_refs"]
 OUTPUT_NAME = {"mergeweb_out": "out-merged.ipynb", "mergetool": "merged.ipynb"}
 _REFS = []
 _real_open = open     # the harness' own file access never goes through an armed disk-fault seam
@@ -95,6 +95,13 @@ def ref_call(call):
         if call["op"] == "diff":
             base = _read_like_server(cwd, call["base"], urls)
             remote = _read_like_server(cwd, call["remote"], urls)
+            d = nbdime.diff_notebooks(base, remote)
+            patched = nbdime.patch_notebook(copy.deepcopy(base), d)
+            return {"value": json.loads(json.dumps({"base": base, "diff": d})),
+                    "remote": json.loads(json.dumps(remote)), "patched": json.loads(json.dumps(patched))}
+        if call["op"] == "diff_text":
+            base = nbformat.reads(call["base_text"], as_version=4)
+            remote = nbformat.reads(call["remote_text"], as_version=4)
             d = nbdime.diff_notebooks(base, remote)
             patched = nbdime.patch_notebook(copy.deepcopy(base), d)
             return {"value": json.loads(json.dumps({"base": base, "diff": d})),
@@ -174,7 +181,11 @@ def generate(rng, index, cfg):
         "cwd_elsewhere": rng.random() < 0.3,
         # the output file is to be created in a directory that does not exist yet
         "output_in_missing_dir": rng.random() < 0.2,
+        # nbdiff-web on two git revisions: the notebooks are blobs (streams), fixed at start-up
+        "refs_base_broken": rng.random() < 0.4,
     }
+    if mode == "diffweb_refs":
+        world["cwd_elsewhere"] = False       # the revisions are resolved in the repository the command is run from
     if world["cwd_elsewhere"]:
         world["wd_flag"] = True
     swarm = {"clients": rng.choice([1, 1, 2, 3, 4]), "net_faults": rng.random() < 0.4, "frag_style": rng.choice(["whole", "mixed", "tiny", "medium"]),
@@ -414,6 +425,8 @@ def _snapshot(dirs):
     snap = {}
     for label, d in dirs:
         for dirpath, dirnames, filenames in os.walk(d):
+            if ".git" in dirnames:
+                dirnames.remove(".git")      # (git's own bookkeeping is not the server's doing)
             dirnames.sort()
             for fn in sorted(filenames):
                 p = os.path.join(dirpath, fn)
@@ -478,6 +491,22 @@ class Runner:
                 {"cell_type": "markdown", "metadata": {}, "source": "old *format*"}], "metadata": {}}]}, f)
         with open(os.path.join(w.work, "v99.ipynb"), "w") as f:
             f.write('{"nbformat": 99, "nbformat_minor": 0, "metadata": {}, "cells": []}')
+        self.refs_texts = None
+        if tw["mode"] == "diffweb_refs":
+            first = '{"cells": [<<<<<<< a committed merge conflict' if tw.get("refs_base_broken") else json.dumps(tw["files"]["a.ipynb"], indent=1)
+            second = json.dumps(tw["files"]["b.ipynb"], indent=1)
+            if second == first:
+                nb2 = copy.deepcopy(tw["files"]["b.ipynb"])
+                nb2["metadata"] = dict(nb2.get("metadata") or {}, second_revision=True)
+                second = json.dumps(nb2, indent=1)
+            w.git("init", "-q", "-b", "main", ".")
+            for text, msg in ((first, "one"), (second, "two")):
+                with open(os.path.join(w.work, "tracked.ipynb"), "w", encoding="utf8") as f:
+                    f.write(text)
+                w.git("add", "tracked.ipynb")
+                w.tick()
+                w.git("commit", "-q", "-m", msg)
+            self.refs_texts = (first, second)
         self.output_name = OUTPUT_NAME.get(tw["mode"])
         if self.output_name and tw.get("output_in_missing_dir"):
             self.output_name = "resolved/2026/" + self.output_name
@@ -520,6 +549,8 @@ class Runner:
             return "nbdime-server", nbdimeserver.main, common + ["--port", "0"] if False else common
         if mode == "diffweb":
             return "nbdiff-web", nbdiffweb.main, common + ["a.ipynb", "b.ipynb"]
+        if mode == "diffweb_refs":
+            return "nbdiff-web", nbdiffweb.main, common + ["HEAD~1", "HEAD"]
         if mode == "difftool":
             return "git-nbdifftool", nbdifftool.main, common + ["a.ipynb", "b.ipynb"]
         if mode == "mergeweb":
@@ -864,15 +895,21 @@ class Runner:
             args = ex.get("args")
             if mode == "difftool":
                 args = {"base": "a.ipynb", "remote": "b.ipynb"}
-            if args is None or (kind == "diff_malformed" and mode != "difftool" and "args" not in ex):
-                if mode != "difftool" and status is not None and status < 400:
+            if mode == "diffweb_refs":
+                args = {"base": "HEAD~1:tracked.ipynb", "remote": "HEAD:tracked.ipynb"}
+            if args is None or (kind == "diff_malformed" and mode not in ("difftool", "diffweb_refs") and "args" not in ex):
+                if mode not in ("difftool", "diffweb_refs") and status is not None and status < 400:
                     self.violate("W4", dict(sig, what="malformed_accepted"), "malformed diff request answered %s: %s" % (status, (ex.get("body") or "")[:100]))
                 return
             if disk == "vanish_input":
                 if status is not None and status < 400 and False:
                     pass
                 return
-            theirs = self.ref({"op": "diff", "base": args.get("base"), "remote": args.get("remote")})
+            if mode == "diffweb_refs":
+                theirs = self.ref({"op": "diff_text", "base_text": self.refs_texts[0], "remote_text": self.refs_texts[1]})
+                self.stat("probe_diff_of_git_blobs")
+            else:
+                theirs = self.ref({"op": "diff", "base": args.get("base"), "remote": args.get("remote")})
             if "exc" in theirs:
                 if status is not None and status < 400:
                     self.violate("W4" if kind == "diff_malformed" else "W1", dict(sig, what="error_not_reported"),
